@@ -395,18 +395,49 @@ class _resolve_called_lambdas(ast.NodeTransformer):
                 }
                 self._arg_map_list.append(arg_map)
 
-                result = self.generic_visit(lambda_node.body)
+                result = self.visit(lambda_node.body)
                 self._arg_map_list.pop()
                 return result
         else:
             return self.generic_visit(node)
         return node
 
+    def visit_Lambda(self, node: ast.Lambda) -> Any:
+        """A lambda that is not being called: its own parameters hide the arguments we are
+        substituting, and must not capture a name that one of those arguments uses."""
+        if len(self._arg_map_list) == 0:
+            return self.generic_visit(node)
+
+        names_in_arguments = {
+            n.id
+            for arg_map in self._arg_map_list
+            for name, value in arg_map.items()
+            if not (isinstance(value, ast.Name) and value.id == name)
+            for n in ast.walk(value)
+            if isinstance(n, ast.Name)
+        }
+        own_args = {}
+        new_arg_list = []
+        for a in node.args.args:
+            new_name = a.arg
+            while new_name in names_in_arguments:
+                new_name = f"{new_name}_{len(self._arg_map_list)}"
+            own_args[a.arg] = ast.Name(id=new_name, ctx=ast.Load())
+            new_arg_list.append(ast.arg(arg=new_name) if new_name != a.arg else a)
+
+        self._arg_map_list.append(own_args)
+        new_body = self.visit(node.body)
+        self._arg_map_list.pop()
+
+        new_args = copy.copy(node.args)
+        new_args.args = new_arg_list
+        return ast.Lambda(args=new_args, body=new_body)
+
     def visit_Name(self, node: ast.Name) -> Any:
         "Look through the arg map to see if it is a argument"
         for arg_map in reversed(self._arg_map_list):
             if node.id in arg_map:
-                return arg_map[node.id]
+                return copy.deepcopy(arg_map[node.id])
         return node
 
 
